@@ -249,6 +249,36 @@ func (l *Loaded) keyLayoutEnv(fn *ssa.Function, env *klEnv, depth int) *keyLayou
 					}
 				}
 				kl.segs = append(kl.segs, classify(src))
+			case full == "builtin.append" && len(args) == 2 && isByteSlice(args[0].Type()):
+				// key = append(key, part...) / append(key, 'c'): the parts in the order they are appended (straight-line
+				// builders only)
+				if loopHeaderOf(b) != nil {
+					fail("append to the key inside a loop")
+				}
+				src := args[1]
+				if sl, isSl := src.(*ssa.Slice); isSl {
+					if arr, isArr := sl.X.(*ssa.Alloc); isArr {
+						// individual bytes: append(key, '/')
+						if els := arrayStores(arr); els != nil {
+							okc := true
+							hex := ""
+							for _, e := range els {
+								k, isK := constInt(e)
+								if !isK {
+									okc = false
+									break
+								}
+								hex += fmt.Sprintf("%02x", k)
+							}
+							if okc {
+								kl.segs = append(kl.segs, seg{kind: "const", bytes: hex})
+								continue
+							}
+							fail("non-constant byte appended to the key")
+						}
+					}
+				}
+				kl.segs = append(kl.segs, classify(src))
 			case full == "(*bytes.Buffer).WriteString":
 				sv, _ := env.resolve(args[1])
 				s := Sym(sv)
@@ -422,6 +452,9 @@ func (l *Loaded) keyBuilders(rel string) map[string]*keyLayout {
 				uses = true
 			}
 			if calleeFull(call) == "builtin.copy" && len(call.Common().Args) == 2 && isByteSlice(call.Common().Args[0].Type()) && call.Parent() == fn {
+				uses = true
+			}
+			if calleeFull(call) == "builtin.append" && len(call.Common().Args) == 2 && isByteSlice(call.Common().Args[0].Type()) && call.Parent() == fn {
 				uses = true
 			}
 		}
